@@ -100,8 +100,9 @@ def rustc_rejects(ctx, tag, d):
     shutil.copy(os.path.join(fw.REPO, "Cargo.lock"), os.path.join(cd, "Cargo.lock"))
     src = defgen.module_source([(tag, d)])
     lines = src.split("\n")
-    lo = next(i for i, l in enumerate(lines) if "#[quantity" in l) + 1
-    hi = next(i for i, l in enumerate(lines) if l.strip().startswith("pub struct") or l.strip().startswith("pub enum")) + 1
+    # the definition under test is the LAST one of the module (derived definitions are preceded by the helper quantities Foo, Bar)
+    lo = max(i for i, l in enumerate(lines) if "#[quantity" in l) + 1
+    hi = max(i for i, l in enumerate(lines) if l.strip().startswith("pub struct") or l.strip().startswith("pub enum")) + 1
     open(os.path.join(cd, "src", "lib.rs"), "w", encoding="utf-8").write(src)
     rc, out, dt = fw.sh(["cargo", "check", "--offline", "--quiet", "--message-format=json"], cwd=cd, timeout=900,
                         env={"CARGO_TARGET_DIR": os.path.join(fw.BUILD, "target-c12")})
